@@ -1,8 +1,8 @@
 # C03 — canonicalize ⊑ normalize ⊑ fingerprint.
 from . import common
 from .common import Exc
-from .url_grammar import gen_su, spelling_variants, call, gen_url
-from .C04 import irrelevant_variants
+from .url_grammar import gen_su, spelling_variants, call, gen_url, wrap_junk
+from .C04 import irrelevant_variants, composed_variant
 from .C02 import raw_unsafe
 
 THEOREMS = ['C03_fingerprint_factors'] + ["(main statement: harness deciders on the implementation + model correspondence — partial)"]
@@ -28,6 +28,8 @@ def run(res, tier, rng):
     urls = []
     for _ in range(2500 if tier == "quick" else 50000):
         urls.append(gen_url(rng))
+        if rng.random() < 0.15:
+            urls.append(wrap_junk(gen_url(rng), rng))
     for u in urls:
         for pa in (False, True):
             for q in (False, True):
@@ -66,6 +68,7 @@ def run(res, tier, rng):
     for _ in range(600 if tier == "quick" else 10000):
         su = gen_su(rng)
         group = [su.render()] + [v for name, v in spelling_variants(su, rng) if not name.startswith("pair:")] + [v for _, v in irrelevant_variants(su, rng)]
+        group += [composed_variant(su, rng)[1] for _ in range(4)] + [wrap_junk(su.render(), rng) for _ in range(2)]
         by_canon = {}
         by_norm = {}
         for v in group:
@@ -87,7 +90,7 @@ def run(res, tier, rng):
         res.known_hits.append((fid, text))
     res.nontrivial = nontriv
     res.rule = ("composition equalities normalize(canonicalize(u)) = normalize(u), fingerprint(canonicalize(u)) = fingerprint(u), fingerprint(normalize(u)) = fingerprint(u) (when normalize(u) is its own normalized form) on urls of the C01 "
-                "grammar x quoted x platform_aware x strip_suffix; collision classes: all C02 spellings and C04 variants of a structured base grouped by canonical / normalized form, the "
+                "grammar (a share of them inside whitespace / control characters in any order) x quoted x platform_aware x strip_suffix; collision classes: all C02 spellings and C04 variants (alone and composed) of a structured base grouped by canonical / normalized form, the "
                 "stronger scheme must be constant on each group. Non-trivial = urls on which the first equality holds non-vacuously.")
     res.sample(dict(url=urls[3], canonical=call(canonicalize_url, urls[3]), normalized=call(normalize_url, urls[3]), fingerprint=call(fingerprint_url, urls[3])))
     res.theorems = THEOREMS
